@@ -128,6 +128,22 @@ CLAIMS = {
         'Partial: termination of the checker is not proved (fuel 4000 in the correspondence). Only value shortcuts are links. No axioms.',
    technique='Coq proofs (infinite descent, induction on derivations, fuel bound) + model/implementation correspondence + graph oracle',
    ref='section 9, C06'),
+ 'C07': dict(
+   category='proof',
+   text='Coq theorems relating the model of compiler_all_of.go to a declarative specification of inheritance (Spec/Inherit.v: own '
+        'properties, then those of each named type in rule order, transitively, each marked with its origin and keeping optionality): '
+        'soundness (an accepted object is the merge), completeness (every merge is accepted for all large enough fuel - no false '
+        'refusal), a refusal with any code means no merge exists, uniqueness, the shape theorem (key/optional/origin list = own ++ '
+        'inherited, names distinct), and one theorem per defect (cyclic chain - also through nested objects -, missing type, non-object, '
+        'duplicated name, conflicting additionalProperties) showing it rules out a merge; for all definitions, stacks and fuels. Tie: '
+        'model vs the compiled node tree of the real schema (key, optional, InheritedFrom), verdict code, keys of Example() and of the '
+        'OpenAPI property listing, on root + 2 types exhaustively, all additionalProperties pairs, chains/cycles up to 6, diamonds and '
+        'random graphs with nested objects; an independent python merge oracle.',
+   note='Trusted: Coq kernel; model tied by correspondence; text printer and python oracle; harness reading ischema nodes. Partial: '
+        'termination of the compiler model is not proved (fuel 200 in the correspondence; out-of-fuel would be reported). allOf inside '
+        'arrays is not generated. No axioms.',
+   technique='Coq proofs (soundness/completeness against a declarative spec, mutual induction, fuel monotonicity) + correspondence + oracle',
+   ref='section 9, C07'),
 }
 
 def main():
